@@ -543,4 +543,22 @@ theorem pollsAt_init (n t j : Nat) : pollsAt (init n t) j = 0 := by
   split <;> simp_all
   rename_i h; obtain ⟨_, rfl⟩ := h; rfl
 
+/-! ### Fault steps and the marker step (C15) -/
+
+theorem stepProc_fail (t : Nat) (fs : FS) (p : Proc)
+    (h : p.pc = .bGen ∨ p.pc = .bSrc ∨ p.pc = .bObj ∨ p.pc = .bLink1 ∨ p.pc = .bLink2) :
+    (∃ cause, (stepProc t fs p .fail).2.1.pc = .bFail cause) ∧ (stepProc t fs p .fail).1 = fs ∧
+    (stepProc t fs p .fail).2.2.res = .raise := by
+  obtain ⟨pc, g, saved, polls⟩ := p
+  rcases h with h | h | h | h | h <;> simp only at h <;> subst h <;>
+    simp [stepProc, stepLive, Pc.terminal, Proc.compileRaises]
+
+theorem stepProc_marks (t : Nat) (fs : FS) (p : Proc) (c : Choice) (h0 : fs.marker = false)
+    (h1 : (stepProc t fs p c).1.marker = true) :
+    p.pc = .bMark ∧ (stepProc t fs p c).2.2 = ⟨.mark, .ok⟩ := by
+  obtain ⟨pc, g, saved, polls⟩ := p
+  cases pc <;> cases c <;>
+    simp [stepProc, stepLive, Pc.terminal, Proc.compileRaises, apply_ite Prod.fst, apply_ite Prod.snd,
+      apply_ite FS.marker, h0] at h1 ⊢ <;> simp_all
+
 end Ffcx.Jit
